@@ -14,6 +14,10 @@ import Generated.HistoryTree
                 fail              sim.step()  returned Err
                 walk  <k> <T|F>   sim.walk(): k steps executed, T = ended with Err
                 walkt <k> <T|F>   sim.walk_timed_path(..)
+                poke  <k> <N | S n>   <k-th nested object>.save_interval = ..   (pub field, raw write)
+                setat <k> <N | S n>   <k-th nested object>.set_save_interval(..) (the nested object's own setter)
+                                      k = position among the nodes that carry an interval, in pre-order
+                                      (= among the dump lines whose interval column is not `-`); out of range: bad op
     answer: `ok <n> <node>*` with, for every node that has a counter, a history or an interval, in
     pre-order: `<path> <i|-> <N|S n|-> <[ len i₁ … | ->`;   `panic` when a reached gate computes `i % 0`.
 
@@ -36,10 +40,16 @@ def kindP : P Kind := do
   | some k => pure k
   | none => throw s!"unknown simulation kind {w}"
 
-def opP (kind : Kind) : P Op := do
+def nodeIdx (cnt : Nat) : P Nat := do
+  let k ← nat
+  if k < cnt then pure k else throw s!"node index {k} out of range (the tree has {cnt} objects with a save_interval)"
+
+def opP (kind : Kind) (cnt : Nat) : P Op := do
   let w ← word
   match w with
   | "set" => do let v ← opt nat; pure (.set v)
+  | "poke" => do let k ← nodeIdx cnt; let v ← opt nat; pure (.poke k v)
+  | "setat" => do let k ← nodeIdx cnt; let v ← opt nat; pure (.setAt k v)
   | "step" => pure .step
   | "fail" => pure .stepFail
   | "walk" => do let k ← nat; let f ← bool; pure (.walk (walkInitSaves kind) k f)
@@ -59,7 +69,7 @@ def handlers : List (String × Handler) := [
     let kind ← kindP
     let vs ← seq variant
     let v0 ← opt nat
-    let ops ← seq (opP kind)
+    let ops ← seq (opP kind (cntT (shape kind vs)))
     if !scanOk then throw ("scanner failed: " ++ scanError)
     let t0 := newT (newProg kind) v0 (shape kind vs)
     pure (resStr dumpStr (runR (stepOrder kind) ops t0))),
